@@ -11,7 +11,16 @@ spec = {"ops": [op, ...]} over the fixed universe U_SPEC (indices), op is one of
     ["replace", ref, i, fail]  lib.replace(X, U[i], fail_on_duplicate_key=fail)
 ref is an index i (the universe block U[i]) or ["w", n]: the (n mod number-of-wrappers-created-so-far)-th duplicate
 wrapper the library created in this history (held or not); when no wrapper exists yet the op is skipped.
-A spec may carry its own "universe" (list of common.block_from_spec specs) - default U_SPEC."""
+A spec may carry its own "universe" (list of common.block_from_spec specs) - default U_SPEC.
+
+Twins.  Two universe specs that are equal build two distinct objects that are `==` (Block.__eq__ is structural): U[9] is a
+twin of the entry U[0], U[10] a twin of the string U[3].  remove / replace locate their argument with list.remove /
+list.index, i.e. by `==`, so the reference model resolves an argument to the FIRST held block of the argument's *equality
+class* (a duplicate wrapper is only ever equal to itself: it carries an Exception, compared by identity); the block taken
+out - and the index entry dropped - is that held block, not the argument; an argument whose class is not held -> ValueError.
+Ruling: a failing replace(old, new, fail_on_duplicate_key=True) whose `old` is an equal copy of the held block may leave
+the *copy* held in place of the original (the rollback re-inserts its argument): the library is then still equal (==,
+blockwise and keywise) to what it was, which is what the statement requires of a raising call - accepted, the model follows."""
 import itertools
 
 from bibtexparser.library import Library
@@ -20,12 +29,14 @@ from bibtexparser.model import (DuplicateBlockKeyBlock, Entry, ExplicitComment, 
 from native.common import block_from_spec
 
 RULE = ("histories of add (single / list / fail_on_duplicate_key), remove (single / list) and replace (both fail modes) over a fixed "
-        "universe of 9 blocks with colliding keys (entries k,k,j; strings k,k,j; preamble; comment; failed block), including "
+        "universe of 11 blocks with colliding keys (entries k,k,j; strings k,k,j; preamble; comment; failed block; a twin of the first entry and "
+        "of the first string: distinct objects that are == to their original, used as add / remove / replace-old arguments), including "
         "re-adding held blocks, removing/replacing blocks not held and addressing the duplicate wrappers the library created; "
-        "after EVERY call all views are compared (by identity) with a list+2-dict reference model; "
+        "after EVERY call all views are compared (by identity) with a list+2-dict reference model in which remove/replace act on the first "
+        "held block == to the argument; "
         "non-trivial = at least one call changes the reference model; distinct = distinct op list")
-BOUND = {"quick": "all histories of depth <= 3 over a 31-op alphabet (7 blocks) + all of depth <= 2 over a 56-op alphabet + 2000 random histories of depth 1..30 over the full op set",
-         "thorough": "all histories of depth <= 4 over the 31-op alphabet + all of depth <= 3 over the 56-op alphabet + 30000 random histories of depth 1..30"}
+BOUND = {"quick": "all histories of depth <= 3 over a 37-op alphabet (7 blocks + 2 twins, 6 twin ops) + all of depth <= 2 over a 72-op alphabet (16 twin ops) + 2000 random histories of depth 1..30 over the full op set (twins in ~1/4 of the remove/replace arguments)",
+         "thorough": "all histories of depth <= 4 over the 37-op alphabet + all of depth <= 3 over the 72-op alphabet + 30000 random histories of depth 1..30"}
 
 U_SPEC = [
     {"t": "entry", "type": "article", "key": "k", "fields": [["title", "{A}"]], "line": 1, "raw": "@article{k, title = {A}}"},    # 0
@@ -38,6 +49,28 @@ U_SPEC = [
     {"t": "ecomment", "comment": "note", "line": 15, "raw": "@comment{note}"},                                                      # 7
     {"t": "failed", "raw": "@article{broken", "line": 16},                                                                          # 8
 ]
+U_SPEC.append(dict(U_SPEC[0]))      # 9 : twin of entry 0   (U[9] == U[0], U[9] is not U[0])
+U_SPEC.append(dict(U_SPEC[3]))      # 10: twin of string 3
+TWINS = [(0, 9), (3, 10)]
+_ERR_TYPES = ("failed", "dupfield", "mwerror")      # carry an Exception object (compared by identity): == only to themselves
+
+
+def _classes(specs):
+    """equality class of every universe block, from the specs alone: index of the first structurally equal spec."""
+    cls = []
+    for i, s in enumerate(specs):
+        c = i
+        if s["t"] not in _ERR_TYPES:
+            for j in range(i):
+                if cls[j] == j and specs[j] == s:
+                    c = j
+                    break
+        cls.append(c)
+    return cls
+
+
+_CLS = _classes(U_SPEC)
+assert _CLS == [0, 1, 2, 3, 4, 5, 6, 7, 8, 0, 3]
 
 
 def _kind(b):
@@ -57,14 +90,15 @@ def _kind(b):
 # ------------------------------------------------------------------ the reference model (property statement only)
 class Model:
     """held: list of items ("b", i) = universe block i held as itself | ("w", wid) = a duplicate wrapper;
-    ed / sd: key -> universe index of the live entry / string; wr[wid] = (duplicate index, live index at creation)."""
-    __slots__ = ("held", "ed", "sd", "wr", "kinds", "keys")
+    ed / sd: key -> universe index of the live entry / string; wr[wid] = (duplicate index, live index at creation);
+    cls[i] = equality class of universe block i (twins share one)."""
+    __slots__ = ("held", "ed", "sd", "wr", "kinds", "keys", "cls")
 
-    def __init__(self, kinds, keys):
-        self.held, self.ed, self.sd, self.wr, self.kinds, self.keys = [], {}, {}, [], kinds, keys
+    def __init__(self, kinds, keys, cls):
+        self.held, self.ed, self.sd, self.wr, self.kinds, self.keys, self.cls = [], {}, {}, [], kinds, keys, cls
 
     def copy(self):
-        m = Model(self.kinds, self.keys)
+        m = Model(self.kinds, self.keys, self.cls)
         m.held, m.ed, m.sd, m.wr = list(self.held), dict(self.ed), dict(self.sd), list(self.wr)
         return m
 
@@ -84,8 +118,18 @@ class Model:
         d[key] = i
         return ("b", i), False
 
-    def _drop(self, item):
-        self.held.remove(item)                      # first occurrence
+    def _find(self, arg):
+        """position of the FIRST held item that list.remove / list.index match for this argument (== semantics), or None."""
+        if arg[0] == "w":                           # a wrapper is equal to itself only
+            return self.held.index(arg) if arg in self.held else None
+        c = self.cls[arg[1]]
+        for p, h in enumerate(self.held):
+            if h[0] == "b" and self.cls[h[1]] == c:
+                return p
+        return None
+
+    def _drop(self, p):
+        item = self.held.pop(p)
         if item[0] == "b":
             d = self._index(item[1])
             if d is not None:
@@ -108,29 +152,45 @@ class Model:
     def remove(self, items, is_list):
         st = self.copy()
         for n, it in enumerate(items):
-            if it not in st.held:
+            p = st._find(it)
+            if p is None:
                 alt = ("F11a-remove-partial", st) if (is_list and n > 0) else None
                 return True, "missing", self, alt
-            st._drop(it)
+            st._drop(p)
         return False, None, st, None
 
     def replace(self, old, new, fail):
-        if old not in self.held:
+        p = self._find(old)
+        if p is None:
             return True, "missing", self, None
-        p = self.held.index(old)
+        h = self.held[p]                            # the held block that is taken out (== old, not necessarily old itself)
         d = self._index(new)
         dup = False
         if d is not None:
             live = d.get(self.keys[new])
-            dup = live is not None and ("b", live) != old       # "a block with new_block.key (other than old_block) already exists"
+            dup = live is not None and ("b", live) != h         # "a block with new_block.key (other than old_block) already exists"
         if dup and fail:
             return True, "dup", self, None
         st = self.copy()
-        st._drop(old)
+        st._drop(p)
         item, isdup = st._append(new)
         assert isdup == dup
         st.held.insert(p, item)
         return False, None, st, None
+
+    def swapped(self, old):
+        """(state, held index, argument index) in which the held block matched by `old` is exchanged for the equal copy `old`
+        (see the ruling in the module docstring); None when the held block is the argument itself."""
+        p = self._find(old)
+        if p is None or old[0] != "b" or self.held[p] == old:
+            return None
+        h = self.held[p]
+        st = self.copy()
+        st._drop(p)
+        item, isdup = st._append(old[1])
+        assert not isdup
+        st.held.insert(p, item)
+        return st, h[1], old[1]
 
 
 # ------------------------------------------------------------------ comparing the real library with a model state
@@ -138,8 +198,11 @@ def _same(a, b):
     return len(a) == len(b) and all(x is y for x, y in zip(a, b))
 
 
+_NAMES = {}      # id(universe block) -> "U<i>" of the history being checked (reporting only: twins print alike otherwise)
+
+
 def _r(objs):
-    return [getattr(o, "key", "") + ":" + type(o).__name__ + "@" + str(o.start_line) for o in objs]
+    return [getattr(o, "key", "") + ":" + type(o).__name__ + "@" + str(o.start_line) + ("#" + _NAMES[id(o)] if id(o) in _NAMES else "") for o in objs]
 
 
 def compare(m, lib, U, wobj, order_free):
@@ -215,12 +278,21 @@ def _viol(step, op, what, expected, observed, key=None):
 
 
 def check_history(spec):
-    U = [block_from_spec(s) for s in spec.get("universe", U_SPEC)]
+    uspec = spec.get("universe", U_SPEC)
+    U = [block_from_spec(s) for s in uspec]
     kinds = [_kind(b) for b in U]
     keys = [getattr(b, "key", None) for b in U]
-    pristine = [dict(vars(block_from_spec(s))) for s in spec.get("universe", U_SPEC)]
+    cls = _CLS if uspec is U_SPEC else _classes(uspec)
+    pristine = [dict(vars(block_from_spec(s))) for s in uspec]
+    _NAMES.clear()
+    _NAMES.update({id(b): "U%d" % i for i, b in enumerate(U)})
+    # precondition of the whole model: `==` on blocks is structural (twin == original, every other block of the same type differs)
+    for i in range(len(U)):
+        for j in range(i):
+            if uspec[i]["t"] == uspec[j]["t"] and ((U[i] == U[j]) != (cls[i] == cls[j]) or (U[j] == U[i]) != (cls[i] == cls[j])):
+                return _viol(-1, "universe", "block == is not structural equality (U[%d] vs U[%d])" % (j, i), cls[i] == cls[j], U[i] == U[j])
     lib = Library()
-    m = Model(kinds, keys)
+    m = Model(kinds, keys, cls)
     wobj = {}
     order_free = False          # set once a strings-order violation has been recorded in this history (fallout suppression)
     recorded = None             # first classified violation; an unclassified one returns immediately
@@ -292,12 +364,28 @@ def check_history(spec):
                               _r(lib.blocks), alt[0])
                     m = alt[1]
                     wobj.update(nb)
-            if v is None and name == "replace" and op[3] is True and reason == "dup" and now[0] == before[0] \
-                    and sorted(now[1]) == sorted(before[1]) and sorted(now[2]) == sorted(before[2]):
-                v = _viol(step, op, "failing replace changed the iteration order of the key index (entries_dict / strings_dict, strings view)",
-                          [[k for k, _ in before[1]], [k for k, _ in before[2]]], [[k for k, _ in now[1]], [k for k, _ in now[2]]], "F11b-replace-reorders")
-                if now[2] != before[2]:
-                    order_free = True
+            if v is None and name == "replace" and op[3] is True and reason == "dup":
+                # the states a failing replace may leave: what it was, or (old is an equal copy of the held block) the copy in its place
+                cands = [(before, m)]
+                sw = m.swapped(it)
+                if sw is not None:
+                    a, b = id(U[sw[1]]), id(U[sw[2]])
+                    cands.append((([b if x == a else x for x in before[0]], [(k, b if x == a else x) for k, x in before[1]],
+                                   [(k, b if x == a else x) for k, x in before[2]]), sw[0]))
+                for bs, tm in cands:
+                    if now == bs:                       # equal library, the copy is held now: accepted (ruling)
+                        m = tm
+                        v = "accepted"
+                        break
+                    if now[0] == bs[0] and sorted(now[1]) == sorted(bs[1]) and sorted(now[2]) == sorted(bs[2]):
+                        v = _viol(step, op, "failing replace changed the iteration order of the key index (entries_dict / strings_dict, strings view)",
+                                  [[k for k, _ in bs[1]], [k for k, _ in bs[2]]], [[k for k, _ in now[1]], [k for k, _ in now[2]]], "F11b-replace-reorders")
+                        if now[2] != bs[2]:
+                            order_free = True
+                        m = tm
+                        break
+                if v == "accepted":
+                    continue
             if v is None:
                 mm, ob, nb = compare(m, lib, U, wobj, order_free)
                 return _viol(step, op, "raised ValueError but the library changed" + (": " + mm[0] if mm else ""),
@@ -362,7 +450,7 @@ def known_witnesses():
 
 # ------------------------------------------------------------------ generation
 W0 = ["w", 0]
-# reduced alphabet over e0(k)=0 e1(k)=1 e2(j)=2 s0(k)=3 s1(k)=4 s2(j)=5 p=6
+# reduced alphabet over e0(k)=0 e1(k)=1 e2(j)=2 s0(k)=3 s1(k)=4 s2(j)=5 p=6 and the twins e0'=9 s0'=10
 ALPHA_SMALL = [
     ["add", 0], ["add", 1], ["add", 2], ["add", 3], ["add", 5], ["add", 6],
     ["add_fail", 1], ["add_fail", 4],
@@ -373,6 +461,8 @@ ALPHA_SMALL = [
     ["replace", 0, 1, True], ["replace", 3, 4, True], ["replace", 3, 5, True], ["replace", 5, 4, True], ["replace", 0, 3, True],
     ["replace", 6, 1, True], ["replace", W0, 1, True],
     ["replace", 0, 1, False], ["replace", 3, 5, False], ["replace", 6, 1, False], ["replace", 6, 4, False], ["replace", W0, 6, False],
+    # twins: add the copy, remove / replace through the copy (succeeding, failing, non-failing)
+    ["add", 9], ["remove", 9], ["remove", 10], ["replace", 9, 2, True], ["replace", 10, 5, True], ["replace", 9, 1, False],
 ]
 ALPHA_LARGE = ALPHA_SMALL + [
     ["add", 4], ["add", 7], ["add", 8],
@@ -382,15 +472,18 @@ ALPHA_LARGE = ALPHA_SMALL + [
     ["remove_list", [0, 1]], ["remove_list", [0, 0]], ["remove_list", [W0, 0]], ["remove_list", []],
     ["replace", 1, 0, True], ["replace", 0, 0, True], ["replace", 0, 2, True], ["replace", 2, 1, True], ["replace", 3, 6, True],
     ["replace", 1, 0, False], ["replace", 0, 6, False], ["replace", 3, 0, False], ["replace", W0, 4, False],
+    ["add", 10], ["add_fail", 9], ["add_list", [0, 9]],
+    ["remove_list", [9, 6]], ["remove_list", [0, 9]], ["remove_list", [10, 5]],
+    ["replace", 10, 4, False], ["replace", 0, 9, True], ["replace", 9, 0, False], ["replace", 10, 3, True],
 ]
-assert len(ALPHA_SMALL) == 31 and len(ALPHA_LARGE) == 56
+assert len(ALPHA_SMALL) == 37 and len(ALPHA_LARGE) == 72
 
 
 def _nontrivial(ops):
     """pure reference-model run (no code under test): does any call change the model?"""
     kinds = [{"entry": "E", "string": "S", "preamble": "P", "ecomment": "C", "icomment": "C"}.get(s["t"], "F") for s in U_SPEC]
     keys = [s.get("key") for s in U_SPEC]
-    m = Model(kinds, keys)
+    m = Model(kinds, keys, _CLS)
     for op in ops:
         def item(ref):
             return ("b", ref) if isinstance(ref, int) else (("w", ref[1] % len(m.wr)) if m.wr else None)
@@ -424,12 +517,21 @@ def rand_history(rng):
     nU = len(U_SPEC)
     # a per-history working set makes collisions and hits on held blocks likely
     pool = rng.sample(range(nU), rng.randrange(2, nU + 1))
+    for o, t in TWINS:              # an original in the working set usually brings its twin along
+        if o in pool and t not in pool and rng.random() < 0.6:
+            pool.append(t)
+    twins = [t for _, t in TWINS]
 
     def blk():
         return rng.choice(pool) if rng.random() < 0.9 else rng.randrange(nU)
 
-    def ref():
-        return ["w", rng.randrange(4)] if rng.random() < 0.15 else blk()
+    def ref():              # argument of remove / old_block of replace: a wrapper, a twin, or any block
+        r = rng.random()
+        if r < 0.15:
+            return ["w", rng.randrange(4)]
+        if r < 0.30:
+            return rng.choice(twins)
+        return blk()
 
     ops = []
     for _ in range(n):
